@@ -116,6 +116,10 @@ func emittingLoggers(c *Ctx) (map[*ssa.Function]bool, string, bool) {
 
 func checkC17(c *Ctx) {
 	r := c.R
+	// ---- C17.4 libraries the station runs log for themselves: the SCTP association of a DTLS session is given the
+	// library's default logger factory, untouched (its default level prints no connection errors)
+	r.Rule("C17.4", "the SCTP library logs through its own default logger factory", 2)
+	checkSCTPConfigs(c, "C17.4", "LoggerFactory")
 	r.Rule("C17.1", "no value that may carry a client address reaches a log call that emits at the default level", 40)
 	emit, emitDesc, ok := emittingLoggers(c)
 	if !ok || len(emit) < 6 {
